@@ -120,7 +120,7 @@ def run(shard, rec):
                 await mpc.barrier()
                 phase[pid] = 'after'
             return r
-        w = sim.World(m, t, no_prss, seed=sseed, policy=rng.choice(sim.POLICIES)).run(program)
+        w = sim.World(m, t, no_prss, seed=sseed, policy=rng.choice(sim.POLICIES), history='auto').run(program)
         return w, [e for e in log if e[2] == 'op']
 
     for ci, op in enumerate(cases):
